@@ -2,9 +2,9 @@ INIT Init
 NEXT Next
 CONSTANTS
   RichModels = {"prims", "enums", "hier", "mixin", "rec"}
-  RichDepth = 2
+  RichDepth = 1
   BaseDepth = 3
-  NParam = 120
+  NParam = 60
   ParamDepth = 1
   MutDepth = 2
   MutStar = TRUE
